@@ -1132,3 +1132,63 @@ impl UringCompletionQueue {
         unsafe { self.kernel_head.as_ref().fetch_add(num, Ordering::Release) };
     }
 }
+
+#[cfg(feature = "verif-hooks")]
+impl IoUring {
+    /// Build an `IoUring` over caller-supplied ring memory (verification only).
+    /// No mapping is owned: `ring_ptr`/`ring_size` are zero, the value must never be dropped.
+    /// # Safety
+    /// All pointers must be valid for the lifetime of the returned value and sized for
+    /// `sq_entries`/`cq_entries` (powers of two), the returned value must be wrapped in
+    /// `ManuallyDrop`.
+    #[expect(clippy::too_many_arguments)]
+    #[must_use]
+    pub unsafe fn verif_from_raw_parts(
+        fd: Fd,
+        flags: IoUringParamFlags,
+        sq_khead: *mut AtomicU32,
+        sq_ktail: *mut AtomicU32,
+        sq_kflags: *mut AtomicU32,
+        sq_kdropped: *mut AtomicU32,
+        sq_array: *mut AtomicU32,
+        sqes: *mut IoUringSubmissionQueueEntry,
+        sq_entries: u32,
+        sq_local_head: u32,
+        sq_local_tail: u32,
+        cq_khead: *mut AtomicU32,
+        cq_ktail: *mut AtomicU32,
+        cq_koverflow: *mut AtomicU32,
+        cqes: *mut IoUringCompletionQueueEntry,
+        cq_entries: u32,
+    ) -> Self {
+        Self {
+            fd,
+            flags,
+            submission_queue: UringSubmissionQueue {
+                ring_size: 0,
+                ring_ptr: 0,
+                kernel_head: NonNull::new_unchecked(sq_khead),
+                kernel_tail: NonNull::new_unchecked(sq_ktail),
+                kernel_flags: NonNull::new_unchecked(sq_kflags),
+                kernel_dropped: NonNull::new_unchecked(sq_kdropped),
+                kernel_array: NonNull::new_unchecked(sq_array),
+                head: sq_local_head,
+                tail: sq_local_tail,
+                ring_mask: sq_entries - 1,
+                ring_entries: sq_entries,
+                entries: NonNull::new_unchecked(sqes),
+            },
+            completion_queue: UringCompletionQueue {
+                ring_size: 0,
+                ring_ptr: 0,
+                kernel_head: NonNull::new_unchecked(cq_khead),
+                kernel_tail: NonNull::new_unchecked(cq_ktail),
+                kernel_flags: None,
+                kernel_overflow: NonNull::new_unchecked(cq_koverflow),
+                ring_mask: cq_entries - 1,
+                ring_entries: cq_entries,
+                entries: NonNull::new_unchecked(cqes),
+            },
+        }
+    }
+}
